@@ -38,7 +38,8 @@ pub enum BufOp {
     ExtendLoose { len: u16, salt: u32 },
     /// inside a view: create the intermediate of a nested (optionally capped) view and drop it unused
     NestedDropUnused { cap_at: Option<u16> },
-    /// one `read_buffer` call from a reader: fault 0 none, 1 short read, 2 zero-length read, 3 EINTR, 4 hard error
+    /// one `read_buffer` call from a reader: fault 0 none, 1 short read, 2 zero-length read, 3 EINTR, 4 hard error,
+    /// 5 a reader implementing `ReadBufferRef` itself that writes a prefix through the view and then fails, 6 the same succeeding
     Read { avail: u16, fault: u8, salt: u32 },
     /// the following `n` ops run inside a nested view (optionally capped)
     Nested { n: u8, cap_at: Option<u16>, #[serde(default)] cap_at2: Option<u16> },
@@ -88,6 +89,33 @@ impl io::Read for SimReader {
 }
 unsafe impl ReadBufferMarker for SimReader {}
 
+/// A reader that implements the safe `ReadBufferRef` trait itself (a decoder that fills the view
+/// through `BufferRef::write`): it writes a prefix of its data and then fails, or succeeds.
+struct DirectReader {
+    data: Vec<u8>,
+    /// bytes written before the failure (None: no failure)
+    fail_after: Option<usize>,
+}
+impl io::Read for DirectReader {
+    fn read(&mut self, _buf: &mut [u8]) -> io::Result<usize> {
+        unreachable!("only used through ReadBufferRef")
+    }
+}
+impl ReadBufferRef for DirectReader {
+    fn read_buffer_ref<'d, 's>(&mut self, mut buf: BufferRef<'d, 's>) -> io::Result<&'d [u8]> {
+        let room = buf.remaining();
+        let n = match self.fail_after {
+            Some(k) => k.min(self.data.len()).min(room),
+            None => self.data.len().min(room),
+        };
+        buf.write(&self.data[..n]).expect("fits");
+        if self.fail_after.is_some() {
+            return Err(io::Error::new(io::ErrorKind::InvalidData, "simulated corrupt record after a partial decode"));
+        }
+        Ok(buf.initialized())
+    }
+}
+
 fn bytes(seed: u64, salt: u32, len: usize) -> Vec<u8> {
     let mut r = Prng::new(mix(seed, salt as u64, 0x627566));
     let mut d = r.bytes(len);
@@ -125,6 +153,7 @@ struct Stats {
     early_exits: u64,
     capped: u64,
     by_value_reads: u64,
+    direct_reads: u64,
     splits: u64,
     unwinds: u64,
 }
@@ -210,9 +239,39 @@ impl<'a> Run<'a> {
                         }
                     }
                 }
+                BufOp::Read { avail, fault, salt } if fault % 7 >= 5 => {
+                    // a reader implementing ReadBufferRef directly: partial decode then error (5), or success (6)
+                    let data = bytes(self.cfg.seed, salt, avail as usize);
+                    let failing = fault % 7 == 5;
+                    let k = if failing { Some((salt as usize >> 3) % (data.len() + 1)) } else { None };
+                    let expect_n = k.unwrap_or(data.len()).min(data.len()).min(remaining_before);
+                    let mut rd = DirectReader { data: data.clone(), fail_after: k };
+                    let r = rd.read_buffer(&mut *b).map(|s| s.to_vec());
+                    let now = capacity - b.remaining();
+                    self.stats.direct_reads += 1;
+                    if failing {
+                        self.stats.read_faults[4] += 1;
+                    }
+                    if r.is_ok() == failing {
+                        self.viol = Some(v("read-result-wrong", &[("fault", "direct-reader")], format!("a reader that {} produced {}", if failing { "failed" } else { "succeeded" }, if r.is_ok() { "Ok" } else { "Err" })));
+                        return;
+                    }
+                    // whatever the reader wrote through the view stays written, error or not
+                    if now != model.len() + expect_n {
+                        self.viol = Some(v(if failing { "bytes-written-before-error-lost" } else { "count-wrong" }, &[("call", "read_buffer-direct")], format!("a reader wrote {} bytes through the view and then {}; the parent counts {} initialized, expected {}", expect_n, if failing { "failed" } else { "returned" }, now, model.len() + expect_n)));
+                        return;
+                    }
+                    if let Ok(got) = &r {
+                        if got[..] != data[..expect_n] {
+                            self.viol = Some(v("read-result-wrong", &[("fault", "direct-reader")], "the bytes returned differ from the bytes written".into()));
+                            return;
+                        }
+                    }
+                    model.extend_from_slice(&data[..expect_n]);
+                }
                 BufOp::Read { avail, fault, salt } => {
                     let data = bytes(self.cfg.seed, salt, avail as usize);
-                    let fault = fault % 5;
+                    let fault = fault % 7;
                     let mut rd = SimReader { data: data.clone(), fault, rng: Prng::new(mix(self.cfg.seed, salt as u64, 7)) };
                     let r = rd.read_buffer(&mut *b).map(|s| s.to_vec());
                     let now = capacity - b.remaining();
@@ -671,7 +730,7 @@ impl Engine for BufEngine {
             match s.weighted(&[5, 4, 6, 3, 1, 2, 1, 3, 1, 2, if two_step { 3 } else { 0 }, 1]) {
                 0 => ops.push(BufOp::Write { len: lens(&mut s), salt: s.next_u64() as u32 }),
                 1 => ops.push(BufOp::Extend { len: lens(&mut s), salt: s.next_u64() as u32 }),
-                2 => ops.push(BufOp::Read { avail: lens(&mut s).saturating_add(s.below(5) as u16), fault: *s.pick(&[0u8, 0, 1, 1, 2, 3, 4]), salt: s.next_u64() as u32 }),
+                2 => ops.push(BufOp::Read { avail: lens(&mut s).saturating_add(s.below(5) as u16), fault: *s.pick(&[0u8, 0, 1, 1, 2, 3, 4, 5, 5, 6]), salt: s.next_u64() as u32 }),
                 3 => {
                     let cap_at = if s.chance(1, 2) { Some(lens(&mut s)) } else { None };
                     let cap_at2 = if cap_at.is_some() && s.chance(1, 3) { Some(lens(&mut s)) } else { None };
@@ -708,6 +767,7 @@ impl Engine for BufEngine {
         ctx.count_n("probe_early_exits", run.stats.early_exits);
         ctx.count_n("probe_by_value_reads", run.stats.by_value_reads);
         ctx.count_n("probe_split_views", run.stats.splits);
+        ctx.count_n("probe_direct_reader_reads", run.stats.direct_reads);
         ctx.count_n("fault_unwind_in_closure", run.stats.unwinds);
         if run.stats.read_faults[1..].iter().sum::<u64>() > 0 {
             ctx.fault_inflight = true;
